@@ -47,6 +47,7 @@ inductive Err where
   | hdrData     -- HeaderDataError
   | mgh         -- MGHError
   | key         -- KeyError
+  | type        -- TypeError (`np.ndarray(buffer=...)` on fewer than 90 header bytes)
   | unmodelled  -- input outside the modelled domain
   deriving DecidableEq, Repr
 
@@ -686,7 +687,7 @@ def padTo (n : Nat) (bs : Bytes) : Bytes := bs.take n ++ zeros (n - bs.length)
     what `_set_affine_default` puts there: `defRasBytes`, regenerated from the source) and the data elements
     (Fortran order) -/
 def readMgh (bs : Bytes) : Except Err (MghHdr × Bytes × List Nat) :=
-  if bs.length < hdrItemsize then .error .value else
+  if bs.length < hdrItemsize then .error .type else
   match rdU32 bs with
   | .error e => .error e
   | .ok (version, r0) =>
